@@ -56,6 +56,7 @@ type X struct {
 	ReplayMode      int
 	Explored        *vsim.World // the explored world of this execution (decisions recorded here)
 	Inconclusive    string
+	Fingerprint     uint64 // mixes the trace hash and step count of every world of this run (determinism self-test)
 	nontrivial      bool
 	caseHash        uint64
 	haveCase        bool
@@ -133,6 +134,7 @@ func (x *X) Explore(cfg vsim.Config, body func()) *vsim.World {
 	w := vsim.NewWorld(cfg, x.ReplayDecisions, x.ReplayMode)
 	x.Explored = w
 	w.Run(body)
+	x.mix(w)
 	x.account(w)
 	return w
 }
@@ -142,7 +144,13 @@ func (x *X) Explore(cfg vsim.Config, body func()) *vsim.World {
 func (x *X) Solo(k int, body func()) *vsim.World {
 	w := vsim.NewWorld(vsim.Config{Policy: vsim.PolCanonical, Procs: k}, nil, 0)
 	w.Run(body)
+	x.mix(w)
 	return w
+}
+
+func (x *X) mix(w *vsim.World) {
+	x.Fingerprint = (x.Fingerprint ^ w.Hash) * 1099511628211
+	x.Fingerprint = (x.Fingerprint ^ uint64(w.Steps)) * 1099511628211
 }
 
 func (x *X) account(w *vsim.World) {
@@ -279,7 +287,14 @@ func unpackDecisions(a []int) []vsim.Decision {
 }
 
 // sigClass is the part of a signature that minimisation must preserve.
-func sigClass(sig string) string { return sig }
+func sigClass(sig string) string {
+	// the attribution prefix of a C10 difference (is pool reuse necessary?) may flip
+	// while the trace is being shrunk; it is the same difference
+	if strings.HasPrefix(sig, "pool-reuse:") {
+		return "diff:" + strings.TrimPrefix(sig, "pool-reuse:")
+	}
+	return sig
+}
 
 // Minimise shrinks params structurally and the decision list by delta debugging
 // while the same violation signature persists. Returns the final params, the
